@@ -929,15 +929,35 @@ class Exec(HeapMixin, ExprMixin, CallMixin, StmtMixin):
         cache = getattr(fi, '_call_ords', None)
         if cache is None:
             cache = {}
+            names = {}
+            counts = {}
 
             def visit(n):
                 for c in ast.iter_child_nodes(n):
                     if isinstance(c, ast.Call):
                         cache[id(c)] = len(cache)
+                        nm = c.func.attr if isinstance(c.func, ast.Attribute) else (c.func.id if isinstance(c.func, ast.Name) else None)
+                        if nm is not None:
+                            names[id(c)] = (nm, counts.get(nm, 0))
+                            counts[nm] = counts.get(nm, 0) + 1
                     visit(c)
             visit(fi.node)
             fi._call_ords = cache
+            fi._call_names = names
         return cache.get(id(node))
+
+    def site_for(self, c, node):
+        """Call-site contract of `node`: by source-order ordinal (int key), by 'name#k' (k-th call of that name in the
+        function) or by 'name#*' (every call of that name - survives statements being added in between)."""
+        k = self.call_ordinal(node)
+        if k in c.sites:
+            return k, c.sites[k]
+        nm = getattr(self.frame.fi, '_call_names', {}).get(id(node)) if self.frame is not None and self.frame.fi is not None else None
+        if nm is not None:
+            for key in (f'{nm[0]}#{nm[1]}', f'{nm[0]}#*'):
+                if key in c.sites:
+                    return key, c.sites[key]
+        return k, None
 
     def site_check(self, args, result=None, phase='pre'):
         """Call-site contract of the function under verification (sites={call ordinal: ...}): assertions over the
@@ -945,8 +965,7 @@ class Exec(HeapMixin, ExprMixin, CallMixin, StmtMixin):
         c = self.cur
         if c is None or not getattr(c, 'sites', None) or self.depth != 0 or self.spec_mode:
             return
-        k = self.call_ordinal(self._cur_call)
-        site = c.sites.get(k)
+        k, site = self.site_for(c, self._cur_call)
         if site is None:
             return
         env = dict(self.frame.locals)
